@@ -470,13 +470,15 @@ def run_kani_ob(build, ob, playback=False):
             return {"id": ob["id"], "backend": ob["backend"], "status": "undecided", "seconds": 0, "checks": 0, "failed": [],
                     "reason": "lost anchor: loops named in the obligation's unwindset not found in the harness", "cmd": " ".join(cmd)}
         cmd += ["--cbmc-args", "--unwindset", us]
-    rc, out, dt, to = run_cmd(cmd, build.repo, build.env(tmpd), ob.get("timeout", 900) * (2 if playback else 1),
+    # registry timeouts were measured on an idle machine; scale them for loaded runs
+    scale = float(os.environ.get("VERIF_TIMEOUT_SCALE", "2.5"))
+    rc, out, dt, to = run_cmd(cmd, build.repo, build.env(tmpd), ob.get("timeout", 900) * scale * (2 if playback else 1),
                               ob.get("mem_gb", 14))
     shutil.rmtree(tmpd, ignore_errors=True)
     res = parse_kani(out)
     res.update({"id": ob["id"], "backend": ob["backend"], "seconds": round(dt, 1), "cmd": " ".join(cmd)})
     if to:
-        res["status"], res["reason"] = "undecided", "timeout after %ds" % ob.get("timeout", 900)
+        res["status"], res["reason"] = "undecided", "timeout after %ds" % (ob.get("timeout", 900) * scale)
     elif res["status"] == "undecided" and ("bad_alloc" in out or "Out of memory" in out or rc in (-9, 137)):
         res["reason"] = "memory limit"
     if res["status"] != "discharged":
